@@ -215,10 +215,112 @@ def engine_scenarios(tier, seed):
         for rep in range(2 if quick else 6):
             add("watchsig_%s_%d" % (f["family"], rep), dict(f, watch=True), {}, actions=[(rng.uniform(0.3, 1.2), rng.choice(["INT", "TERM"]))],
                 args=["--watch"] + ["t%d" % r for r in f["roots"]], expect={"signal": True}, timeout=10)
+    # watch mode on real inotify: clean-tree start, edits while building, convergence, no rebuild loop
+    for rep_ in range(4 if quick else 24):
+        sc.append({"type": "watchconv", "name": "watchconv_%d" % rep_, "clean_tree": rep_ % 2 == 0, "edits": rng.randint(1, 3),
+                   "gaps": [round(rng.uniform(0.0, 0.45), 2) for _ in range(3)], "during_first_build": rep_ % 4 < 2,
+                   "cfg": dict(gen_configs.finish({"n": 2, "kind": ["b", "b"], "deps": [[], [1]], "roots": [2], "watch": True}, 900 + rep_),
+                               id="bbw%d" % rep_, inh=[[], [1]]),
+                   "bodies": {}, "actions": []})
     return sc
 
 
+WATCH_YAML = """targets:
+  t1:
+    input:
+      - paths: [in_p.txt]
+    build: |
+      v=$(cat in_p.txt)
+      sleep 0.25
+      mkdir -p gen
+      echo $v > gen/p.out
+    output:
+      - paths: [gen]
+  t2:
+    input:
+      - t1.output
+    build: cat gen/p.out > c.out
+    output:
+      - paths: [c.out]
+"""
+
+
+def run_watch_scenario(s):
+    d = os.path.join(CACHE, "scratch", "bb_" + s["cfg"]["id"])
+    shutil.rmtree(d, ignore_errors=True)
+    os.makedirs(d)
+    open(os.path.join(d, "zinoma.yml"), "w").write(WATCH_YAML)
+    open(os.path.join(d, "in_p.txt"), "w").write("v0\n")
+    if not s["clean_tree"]:
+        os.makedirs(os.path.join(d, "gen"))
+        open(os.path.join(d, "gen", "p.out"), "w").write("stale\n")
+    trace = d + ".ndjson"
+    if os.path.exists(trace):
+        os.unlink(trace)
+    state = {"ver": 0, "phase": 0, "t_conv": None, "builds_at_conv": None, "builds_end": None, "converged": False}
+
+    def read(p):
+        try:
+            return open(os.path.join(d, p)).read().strip()
+        except OSError:
+            return None
+
+    def nbuilds():
+        try:
+            return sum(1 for l in open(trace) if '"build_spawned"' in l)
+        except OSError:
+            return 0
+
+    def edit(_d):
+        state["ver"] += 1
+        open(os.path.join(d, "in_p.txt"), "w").write("v%d\n" % state["ver"])
+
+    # the action list of run_zinoma is time based; build it from the scenario
+    acts = []
+    t = 0.15 if s["during_first_build"] else 1.2
+    for k in range(s["edits"]):
+        acts.append((t, edit))
+        t += s["gaps"][k % len(s["gaps"])]
+
+    def settle(_d):
+        # wait (bounded) for the last change to arrive in c.out, then for one idle second
+        deadline = time.time() + 8
+        while time.time() < deadline:
+            if read("c.out") == "v%d" % state["ver"]:
+                state["converged"] = True
+                break
+            time.sleep(0.05)
+        state["builds_at_conv"] = nbuilds()
+        time.sleep(1.0)
+        state["builds_end"] = nbuilds()
+        state["final_out"] = read("c.out")
+
+    acts.append((t + 0.3, settle))
+    acts.append((t + 0.35, "TERM"))
+    r = run_zinoma(d, ["--watch", "t2"], trace, timeout=25, actions=acts)
+    lines = [l for l in open(trace).read().splitlines() if l.strip()] if os.path.exists(trace) else []
+    raw = [json.dumps({"ev": "cfg", "t": s["cfg"]["id"], "cfg": s["cfg"]})] + lines
+    if r["signalled"]:
+        raw.insert(1 + min(r["sig_line"], len(lines)), json.dumps({"ev": "h_signal", "t": ""}))
+    early = not r["signalled"] and not r["timed_out"]
+    raw.append(json.dumps({"ev": "h_watchrun", "t": "", "early_exit": early, "in_ver": state["ver"],
+                           "out_ver": int(state.get("final_out")[1:]) if (state.get("final_out") or "").startswith("v") else -1,
+                           "extra_builds": (state["builds_end"] or 0) - (state["builds_at_conv"] or 0)}))
+    if r["timed_out"]:
+        raw.append(json.dumps({"ev": "h_stall", "t": ""}))
+    else:
+        raw.append(json.dumps({"ev": "h_proc", "t": "", "alive": len(r["leftovers"])}))
+        raw.append(json.dumps({"ev": "h_exit", "t": "", "status": 0 if r["status"] == 0 else 1}))
+    shutil.rmtree(d, ignore_errors=True)
+    if os.path.exists(trace):
+        os.unlink(trace)
+    return {"scenario": s, "raw": raw, "status": r["status"], "timed_out": r["timed_out"], "latency": r["latency"],
+            "leftovers": r["leftovers"], "stderr_tail": r["err"][-600:], "names_ok": True}
+
+
 def run_engine_scenario(s):
+    if s.get("type") == "watchconv":
+        return run_watch_scenario(s)
     d = os.path.join(CACHE, "scratch", "bb_" + s["cfg"]["id"])
     make_project(d, s["cfg"], s["bodies"])
     trace = d + ".ndjson"
